@@ -286,13 +286,13 @@ GROUP_ACTIONS = {
 }
 
 
-def _trace_spec(ctx, module, cfg, traces, why, locate):
+def _trace_spec(ctx, module, cfg, traces, why, locate, maxdiv=10):
     """Run a trace specification over the concatenation of `traces`; a diverging trace is recorded and the run is
     repeated on the traces after it.  Returns (accepted, divergences, [TLC result of every accepting run])."""
     divs, runs, good = [], [], []
     remaining = list(traces)
     accepted = 0
-    while remaining and len(divs) < 20:
+    while remaining and len(divs) < maxdiv:
         tf = os.path.join(ctx.work, "gconf-%s-in.ndjson" % module)
         write_ndjson(tf, [e for t in remaining for e in t])
         r = ctx.tlc(ENGINE, module, cfg, workers=1, timeout=1200, env={"TRACE": tf}, extra=["-difftrace"])
@@ -358,7 +358,7 @@ def conformance(ctx, traces):
     per_action = {a: sum(counts.get(c, 0) for c in cs) for a, cs in GROUP_ACTIONS.items()}
     ctx.conformance_cov = {
         "grouptrace_traces_accepted": acc_cg, "grouptrace_traces": len(cg), "grouptrace_events": events,
-        "grouptrace_member_projections": 2 * acc_cg, "grouptrace_states": states,
+        "grouptrace_member_projections": sum(len({e.get("m") for e in t if e.get("ev") == "start"}) for t in good), "grouptrace_states": states,
         "grouptrace_action_matches": per_action,
         "grouptrace_actions_never_matched": sorted(a for a, n in per_action.items() if n == 0),
         "grouptrace_counters": {k: v for k, v in sorted(counts.items()) if k != "traces"},
